@@ -25,7 +25,7 @@ SPEC = {
              'fault. Non-trivial = budget with >=2 sources whose settings differ, or a supplemental source, or views; distinct by digest'),
     'exhaustive': {'quick': False, 'thorough': False},
     'required_counters': ['cli_runs', 'budgets_compared_with_model', 'transactions_compared', 'total_figure_checks', 'view_membership_checks',
-                          'setting_flip_checks', 'source_fault_checks'],
+                          'setting_flip_checks', 'source_fault_checks', 'budgets_with_same_named_sources'],
     'assumptions': ['deprecated type: amex|boa sources are not generated', 'each CLI run is a fresh interpreter'],
 }
 
@@ -49,6 +49,12 @@ def run_up(root, cfg, fmt=None, quiet=False):
 
 def judge(rec, rnd, tmp, k):
     b = B.gen_budget(rnd)
+    same_names = len(b['sources']) >= 2 and rnd.random() < .25
+    if same_names:
+        # source names are labels, not keys: two statement files of one account may carry the same name and both still count
+        j = rnd.randrange(1, len(b['sources']))
+        b['sources'][j]['name'] = b['sources'][j]['settings']['name'] = b['sources'][0]['name']
+        rec.count('budgets_with_same_named_sources')
     root = os.path.join(tmp, 'b%d' % k)
     os.makedirs(root)
     cfg = B.write_budget(b, root)
@@ -212,7 +218,7 @@ def judge(rec, rnd, tmp, k):
     if len(b['sources']) >= 2 or b['supplemental'] or b['views']:
         rec.interesting(core.digest(case))
     # ---- one-setting flip on one source
-    if len(b['sources']) >= 2:
+    if len(b['sources']) >= 2 and not same_names:
         i = rnd.randrange(len(b['sources']))
         s = b['sources'][i]['settings']
         flip = rnd.choice(['sign', 'header', 'decimal', 'delimiter', 'negate'])
@@ -247,7 +253,7 @@ def judge(rec, rnd, tmp, k):
                 pass
         B.write_budget(b, root)
     # ---- source fault
-    if len(b['sources']) >= 2 and sum(len(s['exp']) for s in b['sources']) > 0:
+    if len(b['sources']) >= 2 and not same_names and sum(len(s['exp']) for s in b['sources']) > 0:
         i = rnd.randrange(len(b['sources']))
         others = [s for j, s in enumerate(b['sources']) if j != i]
         if sum(len(s['exp']) for s in others) == 0:
